@@ -471,6 +471,7 @@ type fakeDest struct {
 	e       *env
 	id      int
 	dlq     bool
+	stream  bool // ack responses form ONE stream: what a failed pass left unread is still there for the next reader
 	calls   int
 	pending []ackResp
 }
@@ -493,7 +494,7 @@ func (d *fakeDest) Write(_ context.Context, rs []opencdc.Record) error {
 	}
 	var rp reply
 	if d.e.gen {
-		rp = genDestReply(d.e.rng(d.id, d.calls), rs, d.dlq, d.e.o)
+		rp = genDestReply(d.e.rng(d.id, d.calls), rs, d.dlq, d.e.o, d.stream)
 		d.calls++
 		d.e.record(d.id, rp)
 	} else {
@@ -504,7 +505,11 @@ func (d *fakeDest) Write(_ context.Context, rs []opencdc.Record) error {
 			return &scriptErr{999}
 		}
 	}
-	d.pending = rp.resps
+	if d.stream {
+		d.pending = append(d.pending, rp.resps...)
+	} else {
+		d.pending = rp.resps
+	}
 	if rp.writeErr >= 0 {
 		return &scriptErr{rp.writeErr}
 	}
@@ -571,7 +576,7 @@ func dlqStr(r opencdc.Record) string {
 	return fmt.Sprintf("%d:%s!%s@%s", tag, p, es, task)
 }
 
-func genDestReply(r *gen.Rand, rs []opencdc.Record, dlq bool, o *gen.Out) reply {
+func genDestReply(r *gen.Rand, rs []opencdc.Record, dlq bool, o *gen.Out, stream bool) reply {
 	rp := reply{isDest: true, writeErr: -1}
 	if r.Chance(1, 40) {
 		rp.writeErr = 200 + r.Intn(20)
@@ -593,6 +598,14 @@ func genDestReply(r *gen.Rand, rs []opencdc.Record, dlq bool, o *gen.Out) reply 
 	}
 	// malformed stream
 	mal := r.Pick(93, 1, 1, 1, 1, 1, 1, 1)
+	if stream && mal == 0 && r.Chance(1, 10) {
+		mal = 6 // a failing ack read in the middle of a write: the rest of the reply stays in the stream
+	}
+	if stream && (mal == 2 || mal == 5 || mal == 7) {
+		// on a shared ack stream a surplus / empty response would be left unread by a CORRECT engine
+		// and desynchronise the fake itself; keep to shapes that poison the destination or are consumed
+		mal = 6
+	}
 	switch mal {
 	case 1:
 		if len(all) > 0 {
@@ -797,14 +810,15 @@ func runShared(r *gen.Rand, o *gen.Out) (lines []string, nontrivial bool) {
 	nsrc := r.Range(2, 3)
 	ndst := r.Range(1, 2)
 	sharedProc := r.Chance(1, 2)
-	o.Count(fmt.Sprintf("shared: sources=%d dests=%d sharedProc=%v", nsrc, ndst, sharedProc))
+	samePos := r.Chance(2, 3)
+	o.Count(fmt.Sprintf("shared: sources=%d dests=%d sharedProc=%v samePos=%v", nsrc, ndst, sharedProc, samePos))
 	// shared tail
 	var destNodes []*funnel.TaskNode
 	tailStr := ""
 	for d := 0; d < ndst; d++ {
 		id := 10 + d
 		e.branchOf[id] = d
-		destNodes = append(destNodes, &funnel.TaskNode{Task: funnel.NewDestinationTask("t"+strconv.Itoa(id), &fakeDest{e: e, id: id}, logger, funnel.NoOpConnectorMetrics{})})
+		destNodes = append(destNodes, &funnel.TaskNode{Task: funnel.NewDestinationTask("t"+strconv.Itoa(id), &fakeDest{e: e, id: id, stream: true}, logger, funnel.NoOpConnectorMetrics{})})
 		if d > 0 {
 			tailStr += ","
 		}
@@ -835,7 +849,11 @@ func runShared(r *gen.Rand, o *gen.Out) (lines []string, nontrivial bool) {
 			var bt []rec
 			for j, n := 0, r.Range(1, 5); j < n; j++ {
 				root := sidx*100 + next
-				bt = append(bt, rec{tag: root, pos: pos{kind: 'k', k: root}})
+				pk := root
+				if samePos {
+					pk = next // sources of the same kind produce the same position values (offsets)
+				}
+				bt = append(bt, rec{tag: root, pos: pos{kind: 'k', k: pk}})
 				next++
 			}
 			st.batches = append(st.batches, bt)
